@@ -49,28 +49,47 @@ Theorem C29_names_follow_import_items :
 Proof. exact names_follow_import_items. Qed.
 Print Assumptions C29_names_follow_import_items.
 
-(* PARTIAL (D21): the local-name and the global-name map are written back with the indices of the input.  In a
-   state whose id maps are the identity on the named ids, every entry sits at the position of the item whose
-   stored id is the entry's index - for globals: of the very global (same fingerprint) the input had there. *)
+(* FULL since the repair of D21 and D202 (the theorem names are those of the former partial results), for every input
+   module and every history: the emitted global-name map consists exactly of the custom names of the emitted global
+   imports under their global indices (C29_import_global_names) and, for every other index, of the parsed entries whose
+   global still has an index, each under that new index; the emitted local-name map of the parsed entries whose function still has an
+   index and was not converted (a conversion replaces the body, resp. the signature, the names belonged to) - the
+   names of deleted entities are gone, no other name appears; both maps are in ascending index order. *)
 Theorem C29_partial :
-  forall (c : ncase) (s0 s : nst) (h : list nop) (rets : list (option N)) (e : emod) (n : names) lf mf lg mg,
+  forall (c : ncase) (s0 s : nst) (h : list nop) (rets : list (option N)) (e : emod) (n : names) lf mf lg mg lm mm,
     init_state c = Ok s0 -> nrun_pref s0 h [] = (s, rets, false) -> nencode (nb_names c) s = Ok (e, n) ->
-    index_space (m_f (ns_m s)) = Ok (lf, mf) -> index_space (m_g (ns_m s)) = Ok (lg, mg) ->
-    maps_identity mg (n_globals (nb_names c)) -> maps_identity mf (n_locals (nb_names c)) ->
-    n_globals n = n_globals (nb_names c) /\ n_locals n = n_locals (nb_names c) /\
-    (forall q t, In (q, t) (n_globals n) -> exists it, nth_error lg (N.to_nat q) = Some it /\ it_id it = q) /\
-    (forall q l, In (q, l) (n_locals n) -> exists it, nth_error lf (N.to_nat q) = Some it /\ it_id it = q).
-Proof. exact NamesProofs.C29_partial. Qed.
+    index_space (m_f (ns_m s)) = Ok (lf, mf) -> index_space (m_g (ns_m s)) = Ok (lg, mg) -> index_space (m_m (ns_m s)) = Ok (lm, mm) ->
+    (forall q t, In (q, t) (n_globals n) <->
+       In (q, t) (import_global_names s lf lg lm) \/
+       (~ In q (map fst (import_global_names s lf lg lm)) /\ exists g, In (g, t) (n_globals (nb_names c)) /\ lookup mg g = Some q)) /\
+    (forall q l, In (q, l) (n_locals n) <->
+       exists f, In (f, l) (n_locals (nb_names c)) /\ ~ In f (ns_forgot s) /\ lookup mf f = Some q) /\
+    ascending (n_globals n) /\ ascending (n_locals n).
+Proof. exact name_maps_follow_their_entities. Qed.
 Print Assumptions C29_partial.
 
+(* the names given to imported globals through their import entries (imports.set_name): (number of global imports
+   emitted before an emitted global import - its global index by Wasm's rule -, the custom name of its entry) *)
+Theorem C29_import_global_names :
+  forall imports nm order idx q t,
+    In (q, t) (emit_imp_gnames idx imports order nm) <->
+    exists j k, nth_error order j = Some k /\ is_gl_entry imports k = true /\
+                lookup nm k = Some t /\ q = idx + emitted_globals_before imports order j.
+Proof. exact emit_imp_gnames_spec. Qed.
+Print Assumptions C29_import_global_names.
+
+(* ... and the new index is the index of the very entity the input named: the item at position q of the recomputed
+   vector, where q is what the id map assigns to the parsed index, has that stored id and the fingerprint the input's
+   global (function) had - for a function that was not converted also its kind (local / imported). *)
 Theorem C29_partial_global_entity :
-  forall (c : ncase) (s0 s : nst) (h : list nop) (rets : list (option N)) lg mg q t g0,
+  forall (c : ncase) (s0 s : nst) (h : list nop) (rets : list (option N)) lf mf lg mg,
     init_state c = Ok s0 -> nrun_pref s0 h [] = (s, rets, false) ->
-    index_space (m_g (ns_m s)) = Ok (lg, mg) ->
-    In (q, t) (n_globals (nb_names c)) -> lookup mg q = Some q ->
-    nth_error (s_items (m_g (ns_m s0))) (N.to_nat q) = Some g0 ->
-    exists it, nth_error lg (N.to_nat q) = Some it /\ it_id it = q /\ it_fp it = it_fp g0.
-Proof. exact NamesProofs.C29_partial_global_entity. Qed.
+    index_space (m_f (ns_m s)) = Ok (lf, mf) -> index_space (m_g (ns_m s)) = Ok (lg, mg) ->
+    (forall g q g0, lookup mg g = Some q -> nth_error (s_items (m_g (ns_m s0))) (N.to_nat g) = Some g0 ->
+       exists it, nth_error lg (N.to_nat q) = Some it /\ it_id it = g /\ it_fp it = it_fp g0) /\
+    (forall f q f0, ~ In f (ns_forgot s) -> lookup mf f = Some q -> nth_error (s_items (m_f (ns_m s0))) (N.to_nat f) = Some f0 ->
+       exists it, nth_error lf (N.to_nat q) = Some it /\ it_id it = f /\ it_fp it = it_fp f0 /\ it_imp it = it_imp f0).
+Proof. exact named_entities_are_the_parsed_ones. Qed.
 Print Assumptions C29_partial_global_entity.
 
 (* the boolean checker evaluated on the observed output means the property *)
@@ -85,18 +104,6 @@ Print Assumptions C29_checker_sound.
 Definition refuted (c : ncase) (k : N) : Prop :=
   agree c = true /\ dom_of (verdict29 c) = true /\ holds_of (verdict29 c) = false /\ known_of (verdict29 c) = [k].
 
-(* D21 (a): `$g0 $g1` stay at indices 0 1 after an imported global was inserted at index 0 *)
-Example C29_refuted_D21_globals :
-  refuted (self_n [] [11] [5; 6] [] (only_names [] [] [(0, 1); (1, 2)]) [NEdit (AddImport SG 9) None]) 21.
-Proof. vm_compute. repeat split; reflexivity. Qed.
-(* D21 (b): the local names of function 1 stay under index 1 after an imported function was inserted *)
-Example C29_refuted_D21_locals :
-  refuted (self_n [] [11; 12] [] [] (only_names [] [(1, [(0, 3)])] []) [NEdit (AddImport SF 9) None]) 21.
-Proof. vm_compute. repeat split; reflexivity. Qed.
-(* D21 (c): a named function converted to an import has no name any more *)
-Example C29_refuted_D21_converted :
-  refuted (self_n [] [11; 12] [] [] (only_names [(0, 1); (1, 2)] [] []) [NEdit (LocalToImport 1 21) None]) 21.
-Proof. vm_compute. repeat split; reflexivity. Qed.
 (* D25 (remaining part): imports.set_fn_name with the FunctionID of an import added after parsing (id 1, behind the local function):
    there is no 2nd function entry in the import vector, nothing is named *)
 Example C29_refuted_D25_imports_api :
@@ -123,9 +130,35 @@ Proof. vm_compute. repeat split; reflexivity. Qed.
 Example C29_repaired_201 :
   repaired (self_n [(0, 1)] [11] [] [] (only_names [] [] []) [NEdit (ImportToLocal 0 21) (Some 7)]) [(1, 7)].
 Proof. vm_compute. repeat split; reflexivity. Qed.
-(* 202: imports.set_name on a global import never reaches the name section *)
-Example C29_refuted_202 :
-  refuted (self_n [(1, 1)] [11] [] [] (only_names [] [] []) [NImpSetName 0 7]) 202.
+(* former D21 (repaired): the names follow their entities *)
+Definition repaired_maps (c : ncase) (fn : nmap) (ln : imap) (gn : nmap) : Prop :=
+  agree c = true /\ dom_of (verdict29 c) = true /\ holds_of (verdict29 c) = true /\ known_of (verdict29 c) = []
+  /\ option_map (fun en => (n_funcs (snd en), n_locals (snd en), n_globals (snd en))) (no_enc c) = Some (fn, ln, gn).
+(* (a) `$g0 $g1` move to indices 1 2 when an imported global is inserted at index 0; the name of a deleted global is gone *)
+Example C29_repaired_D21_globals :
+  repaired_maps (self_n [] [11] [5; 6] [] (only_names [] [] [(0, 1); (1, 2)]) [NEdit (AddImport SG 9) None]) [] [] [(1, 1); (2, 2)].
+Proof. vm_compute. repeat split; reflexivity. Qed.
+Example C29_repaired_D21_deleted_global :
+  repaired_maps (self_n [] [11] [5; 6; 7] [] (only_names [] [] [(0, 1); (1, 2); (2, 3)]) [NEdit (Delete SG 1) None]) [] [] [(0, 1); (1, 3)].
+Proof. vm_compute. repeat split; reflexivity. Qed.
+(* (b) the local names of function 1 move to index 2 when an imported function is inserted *)
+Example C29_repaired_D21_locals :
+  repaired_maps (self_n [] [11; 12] [] [] (only_names [] [(1, [(0, 3)])] []) [NEdit (AddImport SF 9) None]) [] [(2, [(0, 3)])] [].
+Proof. vm_compute. repeat split; reflexivity. Qed.
+(* (c) a named function converted to an import keeps its name (the import is function 0 now); the names of its locals
+   are gone with its body *)
+Example C29_repaired_D21_converted :
+  repaired_maps (self_n [] [11; 12] [] [] (only_names [(0, 1); (1, 2)] [(0, [(0, 4)]); (1, [(0, 3)])] []) [NEdit (LocalToImport 1 21) None])
+                [(0, 2); (1, 1)] [(1, [(0, 4)])] [].
+Proof. vm_compute. repeat split; reflexivity. Qed.
+(* former D202 (repaired): imports.set_name on a global import names the global (it replaces the parsed name), also
+   after the import moved to another global index *)
+Example C29_repaired_202 :
+  repaired_maps (self_n [(1, 1)] [11] [] [] (only_names [] [] []) [NImpSetName 0 7]) [] [] [(0, 7)].
+Proof. vm_compute. repeat split; reflexivity. Qed.
+Example C29_repaired_202_replaces_parsed_name :
+  repaired_maps (self_n [(1, 1); (1, 2)] [11] [5] [] (only_names [] [] [(0, 3); (1, 4); (2, 6)])
+                        [NImpSetName 1 7; NEdit (Delete SG 0) None]) [] [] [(0, 7); (1, 6)].
 Proof. vm_compute. repeat split; reflexivity. Qed.
 (* former D06 / D26 (a deleted item that survived in the function vector shifted the positions body names are
    emitted under; repaired: recalculate_ids drops every deleted item): the witnesses now satisfy the property *)
@@ -158,12 +191,12 @@ Example C29_nonvacuous :
   agree c = true /\ dom_of (verdict29 c) = true /\ holds_of (verdict29 c) = true /\ known_of (verdict29 c) = []
   /\ option_map (fun en => n_funcs (snd en)) (no_enc c) = Some [(0, 9); (2, 8); (3, 4)].
 Proof. vm_compute. repeat split; reflexivity. Qed.
-(* the hypotheses of C29_partial are satisfiable by a state reached through edits: local and global names present,
-   entities appended and a function renamed, the id maps stay the identity on the named ids *)
+(* local and global names through a history that moves, deletes and converts named entities *)
 Example C29_partial_nonvacuous :
-  let c := self_n [(1, 2)] [11; 12] [5; 6] [] (only_names [(0, 1)] [(1, [(0, 3)])] [(0, 4); (2, 5)])
-             [NEdit (AddLocal SG 7) None; NSetFn 1 8; NEdit (AddLocal SF 31) (Some 9)] in
-  agree c = true /\ dom_of (verdict29 c) = true /\ holds_of (verdict29 c) = true
-  /\ forallb (fun kv => negb (moved_in (map_of c SG) (fst kv))) (n_globals (nb_names c)) = true
-  /\ forallb (fun kv => negb (moved_in (map_of c SF) (fst kv))) (n_locals (nb_names c)) = true.
+  let c := self_n [(1, 2)] [11; 12; 13] [5; 6] [] (only_names [(1, 1)] [(0, [(0, 7)]); (1, [(0, 3)]); (2, [(1, 8)])] [(0, 4); (1, 9); (2, 5)])
+             [NEdit (AddImport SG 7) None; NEdit (AddImport SF 21) None; NEdit (Delete SG 1) None; NEdit (Delete SF 0) None;
+              NEdit (LocalToImport 2 22) None; NSetFn 1 6] in
+  agree c = true /\ dom_of (verdict29 c) = true /\ holds_of (verdict29 c) = true /\ known_of (verdict29 c) = []
+  /\ option_map (fun en => (n_funcs (snd en), n_locals (snd en), n_globals (snd en))) (no_enc c)
+     = Some ([(2, 6)], [(2, [(0, 3)])], [(0, 4); (2, 5)]).
 Proof. vm_compute. repeat split; reflexivity. Qed.
